@@ -16,11 +16,15 @@ META = {
     "note": ("Trusted: Lean kernel; extract/c17.go; harness/c17.go + app/verifhook + vigil.VerifCount/VerifLockFree; the sync.Cond model "
              "(Wait = ticket under L, unlock+sleep, re-lock; Broadcast wakes every ticket taken so far — as in sync/cond.go and "
              "runtime/sema.go notifyList); contexts are latches; safeops.WaitForUnlock and hydra's graceful stop poll, so they have no "
-             "wake-up to lose; operations are anonymous in the model (a CeaseVigil is enabled only after a BeginVigil); the extra CeaseVigil after an auto-destroy (counter -1, confirmed on the real code by the `rpcs` op: vigdead=-1) happens on an instance whose only waiter, Destroy's drain, has already returned — it cannot block a wait, so it is not a C17 violation (it matters to C16)."),
+             "wake-up to lose; operations are anonymous in the model (a CeaseVigil is enabled only after a BeginVigil); the auto-destroy sites take the caller's vigil again after the destroy (fact autoDestroyRetakesVigil; `rpcs`: vigdead=0), so every handler shape is balanced also when an auto-destroy fires; the old shape (extra CeaseVigil, counter -1) is refuted under that fact (refutes_doubleCease)."),
     "design_ref": "§8 C17, Appendix E (vigil)",
 }
 
 FINDINGS = {
+    "C17-double-cease-after-auto-destroy": "an auto-destroy site gives the caller's vigil back and does not take it again: the caller's deferred CeaseVigil "
+                                           "runs once more and the instance's counter ends at -1 — a vigil of another request on that instance is lost",
+    "C17-counter-leaks-on-early-exit": "a gateway handler takes a vigil (or the system lock) without deferring its release: leaving between the two statements "
+                                       "— every handler recovers panics — keeps the counter up for ever and every later drain of that instance blocks",
     "C17-destroy-locks-swamp-before-drain": "destroy takes s.mu.Lock() before WaitForActiveVigilsClosed(): a Save in flight holds its vigil and needs "
                                             "s.mu.RLock() — the writer waits for the destroyer's lock, the destroyer for the writer's vigil (AB/BA deadlock)",
     "C17-lost-wakeup": "CeaseVigil decrements the vigil counter without holding the condition variable's mutex: a decrement+broadcast that "
@@ -71,6 +75,9 @@ def spec_violated(rep):
             return "after `%s` waiter %s is still asleep although the vigil counter is 0 and no CeaseVigil is in flight (%s)" % (op, w[1], line)
         if "unwoken" in line:
             return "`%s`: a broadcast with a zero/positive counter did not wake a sleeping waiter (%s)" % (op, line)
+        if line.startswith("delpanic") and ("destroy=stuck" in line or ("vig=" in line and "vig=0" not in line)):
+            return ("a Delete RPC whose DeleteTreasure panicked (recovered by the handler) left the vigil counter of the swamp instance up: "
+                    "every later Destroy of it waits for ever (%s)" % line)
         if line.startswith("destroysave") and ("stuck" in line or "mu=held" in line):
             return ("Destroy() with a Save in flight never completes: the destroyer %s the swamp mutex when its drain begins, the writer it waits "
                     "for needs that mutex (%s)" % ("holds" if "mu=held" in line else "blocks on", line))
@@ -92,7 +99,9 @@ def run(ctx):
     K.lean_verdict(ctx)
     corrs = []
     if K.build_hx(ctx) and K.build_drv(ctx):
-        args = ["%s=%s" % (k, facts.get(k, "unknown")) for k in ("decrementUnderCondLock", "checkStrict", "closeCancels", "drainBeforeSwampMu")]
+        args = ["%s=%s" % (k, facts.get(k, "unknown")) for k in ("decrementUnderCondLock", "checkStrict", "closeCancels", "drainBeforeSwampMu", "autoDestroyRetakesVigil")]
+        hp = str(facts.get("handlers", "")).replace(",", " ").split()
+        args.append("handlersPaired=" + ("yes" if len(hp) >= 3 and hp[0] == hp[2] else "no"))
         c = K.correspondence(ctx, "C17", args)
         corrs.append(("C17", args, c))
         # genuinely concurrent run of the real vigil; its hook log must be a trace of the model
